@@ -25,10 +25,7 @@ impl Controller for StaticResourceController {
             return false;
         }
 
-        let url_array = ["http://", "localhost", &request.request_uri];
-        let url = url_array.join(SYMBOL.empty_string);
-
-        let boxed_url_components = URL::parse(&url);
+        let boxed_url_components = URL::parse_request_target(&request.request_uri);
         if boxed_url_components.is_err() {
             let message = boxed_url_components.as_ref().err().unwrap().to_string();
             println!("unable to parse request uri, {}", message);
@@ -132,10 +129,7 @@ impl Controller for StaticResourceController {
                 let dir = env::current_dir().unwrap();
                 let working_directory = dir.as_path().to_str().unwrap();
 
-                let url_array = ["http://", "localhost", &request.request_uri];
-                let url = url_array.join(SYMBOL.empty_string);
-
-                let boxed_url_components = URL::parse(&url);
+                let boxed_url_components = URL::parse_request_target(&request.request_uri);
                 if boxed_url_components.is_ok() {
                     let components = boxed_url_components.unwrap();
 
@@ -274,10 +268,7 @@ impl StaticResourceController {
         let dir = env::current_dir().unwrap();
         let working_directory = dir.as_path().to_str().unwrap();
 
-        let url_array = ["http://", "localhost", &request.request_uri];
-        let url = url_array.join(SYMBOL.empty_string);
-
-        let boxed_url_components = URL::parse(&url);
+        let boxed_url_components = URL::parse_request_target(&request.request_uri);
         if boxed_url_components.is_err() {
             let error = Error {
                 status_code_reason_phrase: STATUS_CODE_REASON_PHRASE.n400_bad_request,
@@ -430,10 +421,7 @@ impl StaticResourceController {
                             range_header = boxed_header.unwrap();
                         }
 
-                        let url_array = ["http://", "localhost", &request.request_uri];
-                        let url = url_array.join(SYMBOL.empty_string);
-
-                        let boxed_url_components = URL::parse(&url);
+                        let boxed_url_components = URL::parse_request_target(&request.request_uri);
                         if boxed_url_components.is_err() {
                             let message = boxed_url_components.as_ref().err().unwrap().to_string();
                             // unfallable
